@@ -148,6 +148,21 @@ def gen_cases(ctx):
             y = c0 * (R0 @ x) + np.array([[r.gauss(0, 1) * ext] for _ in range(3)]) \
                 + np.array([[r.gauss(0, 1) * ext * c0 * lvl for _ in range(n)] for _ in range(3)])
             yield mk("sized", x, y, ws, noise=lvl, size_grid=True)
+    # ---- nearly aligned sets far from the origin (ECEF / UTM-like coordinates, every coordinate large): y is x rotated about
+    # the common centre by 5..90 degrees plus a small shift; x and y agree to ~1e-5 *relatively* although they are metres
+    # apart (an "already aligned" shortcut with a relative tolerance would return the identity)
+    for j in range(10 if not ctx.thorough else 60):
+        n = r.randint(4, 40)
+        o = np.array([[r.choice([-1, 1]) * r.uniform(2e5, 7e6)] for _ in range(3)])
+        if j % 3 == 2:
+            o[2, 0] = r.uniform(0, 500.0)          # UTM-like: small height
+        ext2 = r.choice([1.0, 3.0, 10.0])
+        loc = np.array([[r.gauss(0, 1) * ext2 * a for _ in range(n)] for a in (1.0, 0.8, 0.5)])
+        Rc = small_rot(r, math.radians(r.uniform(5, 90)))
+        ws = j % 2 == 0
+        c0 = r.uniform(0.9, 1.1) if ws else 1.0
+        y = c0 * (Rc @ loc) + o + np.array([[r.uniform(-1, 1)] for _ in range(3)])
+        yield mk("near-aligned", loc + o, y, ws, noise=0.0, rot_about_centre=True)
     kinds = ["generic", "generic", "noisy", "noisy", "mirrored", "mirrored", "planar", "planar", "offset", "scales",
              "grid", "degenerate", "collinear", "tiny-n", "independent"]
     for k in range(budget):
@@ -553,6 +568,9 @@ def judge(ctx, case, impl, outs):
             ctx.fail(case, "determined-input-not-refused", f"input with singular values {d.tolist()} refused: {impl['msg']}")
         ctx.record(case, o_deg)
         return
+    if not same_shape:       # a result for sets of unequal size (already reported above): nothing further can be judged
+        ctx.record(case, True)
+        return
 
     R, t, c = np.array(impl["R"]), np.array(impl["t"]), impl["c"]
     if not (np.isfinite(R).all() and np.isfinite(t).all() and math.isfinite(c)):
@@ -775,7 +793,7 @@ def check(ctx):
     # route stream: every unequal-size case and every fifth other plain case again through PosePath3D.align (all poses)
     via = [dict(c, route="align") for k, c in enumerate(cases)
            if c.get("flavour", "T-view") == "T-view" and "ws_as" not in c and c["x"] and c["y"]
-           and (c.get("deg") == "shape" or k % 5 == 0)]
+           and (c.get("deg") == "shape" or c["kind"] in ("near-aligned", "offset") or k % 5 == 0)]
     ctx.notes["route_align_cases"] = len(via)
     cases += via
     evaluate(ctx, cases)
